@@ -329,6 +329,7 @@ func (inv *Invoice) Normalize(normalizers tax.Normalizers) {
 	tax.Normalize(normalizers, inv.Supplier)
 	tax.Normalize(normalizers, inv.Customer)
 	applyCustomerRates(inv)
+	clearOwnTaxCountry(inv)
 	tax.Normalize(normalizers, inv.Preceding)
 	tax.Normalize(normalizers, inv.Lines)
 	tax.Normalize(normalizers, inv.Discounts)
